@@ -52,9 +52,20 @@ PROPS["C17"]["streams"] = PROPS["C17"]["streams"] + [("discipline", 120), ("unic
 PROPS["C03"]["streams"] = PROPS["C03"]["streams"] + [("reincarnate", 160)]   # (with and without a usage database)
 PROPS["C07"]["streams"] = PROPS["C07"]["streams"] + [("crowd", 120), ("kf", 80)]
 PROPS["C08"]["streams"] = PROPS["C08"]["streams"] + [("restart", 160)]
+# scale streams (scripts.py): sizes, counts and ages far beyond the random walk's
+for _pid, _l in {"C01": [("scale-msgs", 5)], "C02": [("scale-apps", 3), ("scale-msgs", 5), ("scale-subs", 2)],
+                 "C04": [("scale-name", 3)], "C05": [("scale-time", 5)], "C06": [("scale-apps", 3)],
+                 "C07": [("scale-time", 5)], "C11": [("scale-apps", 3)], "C12": [("scale-subs", 4), ("scale-time", 5)],
+                 "C13": [("scale-msgs", 5)], "C15": [("scale-time", 5)], "C17": [("scale-name", 3)]}.items():
+    PROPS[_pid]["streams"] = PROPS[_pid]["streams"] + _l
 import metamorphic as MM
 for _pid in MM.CHECKS:
     PROPS[_pid]["extra"] = MM.extra(_pid)
+
+# the lock stream (faults.py): real database-lock faults; monitor-only
+import faults as _FL
+for _pid in ("C09", "C13", "C16"):
+    PROPS[_pid]["extra"] = _FL.chain(PROPS[_pid]["extra"], _FL.extra(_pid)) if PROPS[_pid].get("extra") else _FL.extra(_pid)
 
 STALE_PROPS = ("C02", "C11", "C12", "C13")
 
